@@ -289,6 +289,31 @@ func runC04(t *testing.T, sc *world.Scenario) *check.Result {
 		res.Violate("C04", "pid-equals-direct", "pid-equals-direct range="+rng, 0, nil,
 			"min=%d max=%d curve=%d tick=%s: direct settles at %d, default PID at %d", lo, hi, observedC, sc.Tick.D(), steady[0], steady[2])
 	}
+	// the end points of every setting: curve 0 settles at the minimum, curve 255 at the maximum (direct algorithm)
+	for _, ce := range []int{0, 255} {
+		if ce == observedC {
+			continue
+		}
+		sce := sc.Clone()
+		sce.Sensors[0].Prog = constTemp(tempForCurve(ce))
+		seq := c04Exec(t, sce, algos[0], r.Range(0, 255), nil, 0, 60, res)
+		if res.Harness != "" {
+			return res
+		}
+		want := lo
+		if ce == 255 {
+			want = hi
+		}
+		if _, fin, ok := settle(seq.req, 0); ok && seq.curve == ce {
+			res.Probe("end-point-executions")
+			if fin != want {
+				res.Violate("C04", fmt.Sprintf("steady-at-curve-%d", ce), fmt.Sprintf("steady-at-curve-%d algo=direct range=%s", ce, rng), 0, nil,
+					"direct, min=%d max=%d: curve %d settles at %d, want %d", lo, hi, ce, fin, want)
+			}
+		} else {
+			res.Probe("end-point-unjudged")
+		}
+	}
 	// monotone in the curve value: one more curve value c2 > c for the direct algorithm
 	if c < 255 && haveSteady[0] {
 		c2 := c + r.Range(1, 255-c)
